@@ -122,24 +122,10 @@ func (*Parser).synchronise
   loop 1
     invariant wfP(p)
 
-// ---- induction hypothesis for the recursive descent ----------------------------------------------
-// The productions call each other recursively; that a production keeps the token window well
-// formed is proved per production under the hypothesis that the productions it calls do.
-// ASSUMED (listed in the evidence) for the two statement-list productions used below.
-func (*Parser).statements
-  trusted
-  requires wfP(p)
-  ensures wfP(p)
-
-func (*Parser).statementBlock
-  trusted
-  requires wfP(p)
-  ensures wfP(p)
-
-// a closure literal after its parameter list: `-> body` / `~> body`; without an arrow the input
-// is malformed and must yield an invalid node and a diagnostic, not a crash
-func (*Parser).closureAfterArrow
-  props C03
-  requires wfP(p)
-  ensures wfP(p)
+// ---- the productions ------------------------------------------------------------------------------
+// The productions of the recursive descent call each other; each of them is verified against
+// the contracts of the ones it calls (verif_contracts_prod.go, generated: the same window
+// contract for every production), which is an induction over the depth of the call tree.
+// Example: a closure literal after its parameter list is `-> body` / `~> body`; without an
+// arrow the input is malformed and must yield an invalid node and a diagnostic, not a crash.
 @*/
